@@ -788,7 +788,10 @@ def stage_interp(ctx: Ctx):
         # the Coq model (with the library spline as oracle) against the implementation on arbitrary data
         rnd = np.array([ctx.rng.uniform(-1, 1) for _ in range(len(P))])
         for nu in [(0, 0, 0), (1, 0, 2), (0, 1, 0)]:
-            got = np.asarray(g.interpolate(pts, rnd, nu_x=nu[0], nu_y=nu[1], nu_z=nu[2]), float)
+            try:
+                got = np.asarray(g.interpolate(pts, rnd, nu_x=nu[0], nu_y=nu[1], nu_z=nu[2]), float)
+            except Exception:
+                break  # already reported above for the polynomial data
             want = mirror(nodes, shape, rnd, pts, nu)
             if got.shape != want.shape or not np.max(np.abs(got - want)) <= 1e-9 * (1 + np.max(np.abs(want))):
                 ctx.fail("tricubic_reproduced", f"{key}:model:{nu}", float(np.max(np.abs(got - want))),
@@ -820,8 +823,13 @@ def stage_interp(ctx: Ctx):
         tl = coef[:2, :2, :2]
         tv = Pn.polyval3d(P[:, 0], P[:, 1], P[:, 2], tl)
         tp = np.array([[ctx.rng.uniform(nodes[a][0], nodes[a][-1]) for a in range(3)] for _ in range(4)])
-        got = np.asarray(g.interpolate(tp, tv, method="linear"), float)
         want = Pn.polyval3d(tp[:, 0], tp[:, 1], tp[:, 2], tl)
+        try:
+            got = np.asarray(g.interpolate(tp, tv, method="linear"), float)
+        except Exception as e:
+            ctx.fail("interpolation_sweep", f"{key}:linear", type(e).__name__, f"{kind}.interpolate(method='linear') raises {type(e).__name__}: {e}",
+                     {"coef": tl.tolist(), "points": tp.tolist()})
+            continue
         if got.shape != want.shape or not np.max(np.abs(got - want)) < 1e-10 * (1 + np.abs(want).max()):
             ctx.fail("interpolation_sweep", f"{key}:linear", float(np.max(np.abs(got - want))), f"{kind}: linear interpolation does not reproduce a trilinear function",
                      {"coef": tl.tolist(), "points": tp.tolist(), "got": got.tolist(), "want": want.tolist()})
@@ -837,41 +845,57 @@ def run(ctx: Ctx):
     from grid.cubic import UniformGrid
 
     src = (SRC / "cubic.py").read_text()
-    text, units = c13_translate.translate(src)  # raises (fail closed) outside the supported subset
-    text2, units2 = c13_translate.translate_axis(src)
     # directed witness for the one behaviour flag that is not read off the source: can "Fourier2" be constructed in 2-D?
     try:
         UniformGrid(np.zeros(2), np.eye(2), np.array([4, 4]), weight="Fourier2")
         VARIANT["fourier2_2d_ok"] = True
     except IndexError:
         VARIANT["fourier2_2d_ok"] = False
-    text = text.replace("From Coq Require Import ZArith.", "From Coq Require Import ZArith.\nFrom P Require Import C13_num.", 1)
-    text += ("\n" + text2 + "\n(* behaviour flag decided by a directed witness run (UniformGrid(zeros(2), eye(2), [4,4], 'Fourier2')) and validated by\n"
-             "   the correspondence on every other 2-D shape *)\n"
-             f"Definition fourier2_2d_ok : bool := {'true' if VARIANT['fourier2_2d_ok'] else 'false'}.\n")
-    ctx.gen("C13_gen.v", text, units + units2 + [{"unit": "witness:fourier2_2d_ok", "file": "src/grid/cubic.py", "lines": [0, 0], "sha": str(VARIANT["fourier2_2d_ok"])}])
-    ctx.copy_coq("C13")
-    status = ctx.coq_build()
-    ctx.register_props(status)
-    if not status.get("C13_gen.v") or not status.get("C13_model.v"):
-        ctx.fail("harness", "model-does-not-compile", None, "C13_gen.v / C13_model.v do not compile; no correspondence possible",
-                 {"log": (ctx.logs.get("C13_gen.v", "") + ctx.logs.get("C13_model.v", ""))[-2000:]}, found_input=False)
-        return
-    # full-strength clauses: proved of the generated code, or refuted (the *_refuted file explains the failure, the stages
-    # below re-derive the concrete failing input on the implementation)
-    for flag, props, refuted, thm, lemma in [("box_full", "C13_props_boxfull.v", "C13_refuted_box.v", "box_contains_nuclei", "box_refuted_lemma"),
-                                             ("closest_full", "C13_props_closestfull.v", "C13_refuted_closest.v", "closest_is_nearest", "closest_refuted_lemma"),
-                                             ("f2d_full", "C13_props_f2d.v", "C13_refuted_f2d.v", "fourier2_2d_constructs", "fourier2_2d_raises_lemma")]:
-        VARIANT[flag] = bool(status.get(props))
-        if not VARIANT[flag] and status.get(refuted):
-            ctx.mark_refuted(thm, lemma)
+    VARIANT.update(box_full=False, closest_full=False, f2d_full=False)
+    # ---- gen (fail closed).  A broken tie (translator outside its subset, or generated file / model not compiling) does not
+    #      end the check: every implementation-side oracle below still runs, and the first failing input that is not a listed
+    #      known finding becomes the replay of the violation (ctx.broken_tie); only if there is none: no-failing-input-found.
+    tie_err, tie_what, status = None, None, {}
+    try:
+        text, units = c13_translate.translate(src)
+        text2, units2 = c13_translate.translate_axis(src)
+    except Exception as e:  # Unsupported, SyntaxError, ...
+        tie_err, tie_what = e, "translator(cubic.py)"
+    if tie_err is None:
+        text = text.replace("From Coq Require Import ZArith.", "From Coq Require Import ZArith.\nFrom P Require Import C13_num.", 1)
+        text += ("\n" + text2 + "\n(* behaviour flag decided by a directed witness run (UniformGrid(zeros(2), eye(2), [4,4], 'Fourier2')) and validated by\n"
+                 "   the correspondence on every other 2-D shape *)\n"
+                 f"Definition fourier2_2d_ok : bool := {'true' if VARIANT['fourier2_2d_ok'] else 'false'}.\n")
+        ctx.gen("C13_gen.v", text, units + units2 + [{"unit": "witness:fourier2_2d_ok", "file": "src/grid/cubic.py", "lines": [0, 0], "sha": str(VARIANT["fourier2_2d_ok"])}])
+        ctx.copy_coq("C13")
+        status = ctx.coq_build()
+        ctx.register_props(status)
+        if not status.get("C13_gen.v") or not status.get("C13_model.v"):
+            tie_err = RuntimeError("C13_gen.v / C13_model.v do not compile: " + (ctx.logs.get("C13_gen.v", "") + ctx.logs.get("C13_model.v", ""))[-600:])
+            tie_what = "generated model (C13_gen.v, C13_model.v)"
+    if tie_err is None:
+        # full-strength clauses: proved of the generated code, or refuted (the *_refuted file explains the failure, the stages
+        # below re-derive the concrete failing input on the implementation)
+        for flag, props, refuted, thm, lemma in [("box_full", "C13_props_boxfull.v", "C13_refuted_box.v", "box_contains_nuclei", "box_refuted_lemma"),
+                                                 ("closest_full", "C13_props_closestfull.v", "C13_refuted_closest.v", "closest_is_nearest", "closest_refuted_lemma"),
+                                                 ("f2d_full", "C13_props_f2d.v", "C13_refuted_f2d.v", "fourier2_2d_constructs", "fourier2_2d_raises_lemma")]:
+            VARIANT[flag] = bool(status.get(props))
+            if not VARIANT[flag] and status.get(refuted):
+                ctx.mark_refuted(thm, lemma)
     ctx.cov["impl_variant"] = dict(VARIANT)
+    ctx.cov["tie_broken"] = None if tie_err is None else f"{tie_what}: {type(tie_err).__name__}: {tie_err}"[:400]
 
     # at most three reported failures per obligation (one broken mechanism fails on almost every input); the
     # canonical inputs of the known findings are always reported
     orig_fail, counts = ctx.fail, {}
 
+    cands: list = []  # (key, observed, text, replay) of concrete failing inputs that are not listed known findings
+
     def limited_fail(obligation, key, observed, text, replay=None, found_input=True):
+        if found_input and not ctx.is_known(key, observed):
+            cands.append((key, observed, text, replay))
+            if tie_err is not None and len(cands) == 1:
+                return  # becomes the replay of the broken-tie violation (reported once, below)
         counts[obligation] = counts.get(obligation, 0) + 1
         if counts[obligation] <= 3 or key in KNOWN_KEYS:
             orig_fail(obligation, key, observed, text, replay, found_input)
@@ -893,6 +917,14 @@ def run(ctx: Ctx):
     guarded(stage_weights, cs, tac)
     guarded(stage_box, cs)
     guarded(stage_closest, cs)
+    if tie_err is not None:
+        # no model to compare with: the brute-force oracles of the remaining stages, then the verdict
+        guarded(stage_cube)
+        guarded(stage_interp)
+        ctx.fail = orig_fail
+        ctx.broken_tie(tie_what, f"{type(tie_err).__name__}: {tie_err}"[:300], cands)
+        ctx.cov["rule"] = "tie broken: implementation-side brute-force oracles only (index round trips, layout, weights, box, closest point, cube, interpolation)"
+        return
     try:
         badidx = ctx.coq_bool_cases("C13_cases", HDR_BOOL, cs.exprs, shard=max(8, math.ceil(len(cs.exprs) / 16)))
     except RuntimeError:  # a shard was killed (overloaded machine): evaluate once more, in two big shards
@@ -923,6 +955,16 @@ def run(ctx: Ctx):
     guarded(stage_interp)
 
     ctx.fail = orig_fail
+    # a theorem about the generated definitions that no longer compiles (and is not explained by a *_refuted file) gets the
+    # first concrete failing input found on the implementation as its replay, instead of no-failing-input-found
+    explicit = {f.obligation for f in ctx.failures}
+    for name, ob in ctx.obligations.items():
+        if ob["status"] != "discharged" and not ob.get("refuted_by") and name not in explicit and cands:
+            key, observed, text, replay = cands[0]
+            rp = dict(replay or {})
+            rp["broken_tie"] = f"theorem {name} ({ob['file']}) no longer checks"
+            rp["coq_log_tail"] = ctx.logs.get(ob["file"], "")[-1500:]
+            ctx.fail(name, key, observed, f"{text}  [found while theorem {name} no longer checks]", rp)
     ctx.cov["failures_suppressed_beyond_3_per_obligation"] = {k: v - 3 for k, v in counts.items() if v > 3}
     ctx.cov["rule"] = (
         "index maps: every (i,j,k) and every flat index (plus 3 beyond the end and -1) of a fixed family of 2-D/3-D shapes incl. "
